@@ -9,13 +9,14 @@ cd "$VERIF_DIR/sim" || exit 2
 export CARGO_NET_OFFLINE=true
 fail=0
 tmp="$(mktemp -d /var/tmp/andasim-det.XXXXXX)"
-for pair in ${DET_PAIRS:-"h_store:C07 h_store:C08 h_store:C09 h_index:C10 h_index:C11 h_index:C12 h_db:C01 h_db:C04 h_db:C05 h_db:C06 h_nexus:C17 h_nexus:C18 h_nexus:C19 h_nexus:C20 h_server:C14"}; do
+DEFAULT_PAIRS="h_store:C07 h_store:C08 h_store:C09 h_index:C10 h_index:C11 h_index:C12 h_db:C01 h_db:C02 h_db:C04 h_db:C05 h_db:C06 h_nexus:C17 h_nexus:C18 h_nexus:C19 h_nexus:C20 h_server:C14"
+for pair in ${DET_PAIRS:-$DEFAULT_PAIRS}; do
   H="${pair%%:*}"; ID="${pair##*:}"
   [ -d "$VERIF_DIR/sim/$H" ] || continue
   cargo build --release --offline -p "$H" >/dev/null 2>&1 || { echo "build failed: $H"; fail=1; continue; }
   BIN="$VERIF_DIR/target/release/$H"
   NN="$N"
-  case "$ID" in C09) NN=$(( N / 10 + 4 ));; esac
+  case "$ID" in C09|C12) NN=$(( N / 10 + 4 ));; C01|C02|C04) NN=$(( N / 3 + 4 ));; esac
   for seed in 1 7; do
     "$BIN" --property "$ID" --seed "$seed" --runs "$NN" --budget 3600 --workers 16 --evidence "$tmp/e1.json" --hashes-out "$tmp/a.txt" >/dev/null 2>&1
     rc1=$?
